@@ -13,7 +13,7 @@ pub fn mon() -> Mon {
         run,
         finish,
         replay,
-        rule: "The 17 control request encoders: every byte parameter through all 256 values, every enum variant, 0-9 routing entries (raw and constructor-built), random UUIDs, random products, plus exhaustive 256x256 parameter pairs for the two-byte-parameter commands in the thorough tier; all into poisoned buffers. Bytes 9.. of each Ok output are compared with a literal DSP0236 layout table: [0x80, command code, parameters in specification order] and nothing else. Non-trivial = a request packet was judged; distinct = distinct (form, body bytes).",
+        rule: "The 17 control request encoders: every byte parameter through all 256 values, every enum variant, 0-9 routing entries (raw and constructor-built), random UUIDs, random products, plus exhaustive 256x256 parameter pairs for the two-byte-parameter commands (Allocate: pool x first EID per operation; Set EID: operation x EID; Query Hop: target x type); all into poisoned buffers. Bytes 9.. of each Ok output are compared with a literal DSP0236 layout table: [0x80, command code, parameters in specification order] and nothing else. Non-trivial = a request packet was judged; distinct = distinct (form, body bytes).",
         assumptions: &[
             "layouts and code points are numeric literals transcribed from DSP0236 Table 12 / clause 12, not taken from the library",
             "request_tx_rate_limit, update_rate_limmit and query_supported_interfaces are unimplemented!() stubs, not encoders (C06 says '17 implemented'); they are excluded",
@@ -85,7 +85,7 @@ fn run(cfg: &RunCfg) -> Report {
     for_each_call(cfg, "c06", &p, &mut |c, _| check(c, &mut rep));
     // exhaustive parameter pairs (thorough): Set EID (op x eid), Allocate (pool x first, per op),
     // Query Hop (target x type)
-    if cfg.thorough() && !cfg.is_small() {
+    if !cfg.is_small() {
         let mut rng = cfg.rng("c06-pairs");
         let mut counter = 0u64;
         let mut go = |c: Call, rep: &mut Report| {
